@@ -282,7 +282,7 @@ Qed.
 Lemma frame_stmt s : stmt_frame s.
 Proof.
   induction s as [ce body IH | own fid body IH | s Hs] using stmt_ind2; intros inrep st st' d H.
-  - rewrite lay_stmt_repeat in H. xinv H. destruct (frame_iter _ IH _ _ _ _ H) as [A1 [A2 [A3 [A4 A5]]]].
+  - rewrite lay_stmt_repeat in H. xinv H. destruct (65536 <? a0); [discriminate|]. destruct (frame_iter _ IH _ _ _ _ H) as [A1 [A2 [A3 [A4 A5]]]].
     constructor; auto; intros _ x Hx; simpl in Hx; first [discriminate | destruct Hx].
   - destruct inrep; [discriminate|]. rewrite lay_stmt_include in H. xinv H. destruct a as [s1 d1]. simpl in H. inversion H; subst.
     pose proof (frame_list _ (Forall_cut_end _ _ IH) (cut_end_noend body) _ _ _ _ Ha) as [F I0 L Dd K Df]. simpl in *.
@@ -401,7 +401,7 @@ Lemma nu_lay_stmt s : stmt_nu s.
 Proof.
   induction s as [ce body IH | own fid body IH | s Hs] using stmt_ind2; intros inrep st Hsup.
   - rewrite lay_stmt_repeat. cbn [sup_stmt] in Hsup. apply andb_true_iff in Hsup. destruct Hsup as [Hc Hb].
-    apply nu_bind; [apply nu_lev; exact Hc|]. intros n. apply nu_bind; [apply nu_lift|]. intros n'.
+    apply nu_bind; [apply nu_lev; exact Hc|]. intros n. apply nu_bind; [apply nu_lift|]. intros n'. destruct (65536 <? n'); [exact I|].
     apply nu_iter; [exact IH|exact Hb].
   - cbn [sup_stmt] in Hsup. apply andb_true_iff in Hsup. destruct Hsup as [Hr Hb]. apply negb_true_iff in Hr. subst inrep.
     rewrite lay_stmt_include. rewrite sup_go_cut in Hb. apply nu_bind; [|intros; exact I].
